@@ -18,7 +18,7 @@ func zzKey12(r *Result) string {
 		r.PaginationInfo.NextPage, r.PaginationInfo.PrevPage, r.MarkupInfo.Title, r.MarkupInfo.Type, r.MarkupInfo.Author}, "\x00")
 }
 
-var zzURLs12 = []string{"http://h.t/a?page=2", "http://h.t/story/2/", "http://h.t/plain/", "http://h.t/list?cat=2&page=2", "http://h.t/archive?page=2"}
+var zzURLs12 = []string{"http://h.t/a?page=2", "http://h.t/story/2/", "http://h.t/plain/", "http://h.t/list?cat=2&page=2", "http://h.t/archive?page=2", "http://h.t/x/2"}
 
 // HarnessC12Interference decides the non-interference condition that makes
 // concurrent calls safe: a call (i) writes no package-level state, (ii)
@@ -36,15 +36,17 @@ func HarnessC12Interference() {
 		u, _ := nurl.Parse(zzURLs12[i])
 		return &Options{LogFlags: flags, PaginationAlgo: algo, OriginalURL: u}
 	}
-	soloI, _ := Apply(vx.ParseHTML(vx.Pages[pi]), mk(pi))
-	soloJ, _ := Apply(vx.ParseHTML(vx.Pages[pj]), mk(pj))
-	kI, kJ := zzKey12(soloI), zzKey12(soloJ)
-	shared := vx.ParseHTML(vx.Pages[pi])
-	sharedOpts := mk(pi)
-	otherDoc := vx.ParseHTML(vx.Pages[pj])
-	otherOpts := mk(pj)
 	if vx.Symbolic() {
+		// the monitor for package-level state is on from the very first call of
+		// the process (lazily built tables are written by whoever comes first)
 		vx.GlobalWrites(true)
+		soloI, _ := Apply(vx.ParseHTML(vx.Pages[pi]), mk(pi))
+		soloJ, _ := Apply(vx.ParseHTML(vx.Pages[pj]), mk(pj))
+		kI, kJ := zzKey12(soloI), zzKey12(soloJ)
+		shared := vx.ParseHTML(vx.Pages[pi])
+		sharedOpts := mk(pi)
+		otherDoc := vx.ParseHTML(vx.Pages[pj])
+		otherOpts := mk(pj)
 		vx.Freeze(shared, sharedOpts, sharedOpts.OriginalURL, otherDoc, otherOpts)
 		r1, _ := Apply(shared, sharedOpts)
 		r2, _ := Apply(otherDoc, otherOpts)
@@ -57,25 +59,33 @@ func HarnessC12Interference() {
 		vx.Cover("interference")
 		return
 	}
+	// natively: a cold start -- the concurrent calls are the first calls of the
+	// process; the solo references are computed afterwards
+	shared := vx.ParseHTML(vx.Pages[pi])
+	sharedOpts := mk(pi)
+	otherDoc := vx.ParseHTML(vx.Pages[pj])
+	otherOpts := mk(pj)
 	var wg sync.WaitGroup
 	var mu sync.Mutex
-	bad := ""
-	run := func(doc *html.Node, o *Options, want string) {
+	gotI, gotJ := map[string]bool{}, map[string]bool{}
+	run := func(doc *html.Node, o *Options, got map[string]bool) {
 		defer wg.Done()
 		for n := 0; n < 12; n++ {
 			r, _ := Apply(doc, o)
-			if k := zzKey12(r); k != want {
-				mu.Lock()
-				bad = "concurrent call differs from its solo result"
-				mu.Unlock()
-			}
+			k := zzKey12(r)
+			mu.Lock()
+			got[k] = true
+			mu.Unlock()
 		}
 	}
 	for g := 0; g < 4; g++ {
 		wg.Add(2)
-		go run(shared, sharedOpts, kI)
-		go run(otherDoc, otherOpts, kJ)
+		go run(shared, sharedOpts, gotI)
+		go run(otherDoc, otherOpts, gotJ)
 	}
 	wg.Wait()
-	vx.Assert(bad == "", "call on the shared document differs from its solo result")
+	soloI, _ := Apply(vx.ParseHTML(vx.Pages[pi]), mk(pi))
+	soloJ, _ := Apply(vx.ParseHTML(vx.Pages[pj]), mk(pj))
+	bad := len(gotI) != 1 || !gotI[zzKey12(soloI)] || len(gotJ) != 1 || !gotJ[zzKey12(soloJ)]
+	vx.Assert(!bad, "call on the shared document differs from its solo result")
 }
